@@ -71,8 +71,8 @@ func (handler AcraBlockHandler) Decrypt(data []byte, context *base.DataProcessor
 
 // EncryptWithClientID implementation of ContainerHandler method
 func (handler AcraBlockHandler) EncryptWithClientID(clientID, data []byte, context *encryptor.DataEncryptorContext) ([]byte, error) {
-	// skip already encrypted AcraBlock
-	if _, _, err := acrablock.ExtractAcraBlockFromData(data); err == nil {
+	// skip already encrypted AcraBlock (the whole value has to be one AcraBlock)
+	if length, _, err := acrablock.ExtractAcraBlockFromData(data); err == nil && length == len(data) {
 		return data, nil
 	}
 	key, err := context.Keystore.GetClientIDSymmetricKey(clientID)
